@@ -101,7 +101,7 @@ func (pp *ppipe) onWriteEvent(we *journal2.WriteEvent) {
 
 func (pp *ppipe) startWorker(src string, srcTags tag.Line, pd *ppDesc) {
 	pp.svc.wwg.Add(1)
-	if pp.svc.closedCtx.Err() == nil && !pd.wCharged && pd.Pos.Less(pd.LastKnwnPos) {
+	if pp.svc.closedCtx.Err() == nil && !pp.deleted && !pd.wCharged && pd.Pos.Less(pd.LastKnwnPos) {
 		pd.wCharged = true
 		w := newWorker(pp, src, srcTags, pp.tags.Line())
 		go w.run(pp.clsCtx)
@@ -164,6 +164,11 @@ func (pp *ppipe) delete() {
 func (pp *ppipe) saveState(src string, st cursor.State) error {
 	verifHook("pipe-save-state", pp.cfg.Name, src)
 	pp.lock.Lock()
+	if pp.deleted {
+		// delete() removes the saved positions of the pipe: a worker that was still copying must not write them back
+		pp.lock.Unlock()
+		return errors2.NotFound
+	}
 	pd, ok := pp.partitions[src]
 	if !ok {
 		pp.lock.Unlock()
